@@ -207,6 +207,8 @@ MUTANTS = [
      r"(service_writer\.write_all\(client_bufreader\.buffer\(\)\)\?;)\s*service_writer\.flush\(\)\?;", r"\1", {"C18"}),
     ("bridge-copy-flushes-only-short-reads", "varlink-cli/src/proxy.rs",
      r"(writer\.write_all\(&buf\[\.\.len\]\)\?;\s*)writer\.flush\(\)\?;", r"\1if len < buf.len() { writer.flush()?; }", {"C18"}),
+    ("gen-helper-continues-after-failed-generation", "varlink_generator/src/lib.rs",
+     r"(if let Err\(e\) = generate_with_options\(reader, writer, options, true\) \{\s*eprintln!\(\s*\"Could not generate rust code from varlink file `\{\}`: \{\}\",\s*input_path\.display\(\),\s*e,\s*\);)\s*exit\(1\);", r"\1", {"C09"}),
 ]
 
 
